@@ -965,53 +965,78 @@ def run_web_cases(ctx, cases, log):
         site = {parse(k).url: v for k, v in c['site'].items()}
         log.clear()
         outcome, seen = real_web_session(demux, make_record(c['url'], c['record']), site, args.strong_redirects, args.robots)
-        # what the server side answers, hop by hop (input of the model's adversary)
-        resps, cur = [], parse(c['url']).url
+        # what the server side and the robots.txt checker answer, hop by hop (input of the model's adversary).
+        # The checker's pool is per session: when a hop is reached, robots.txt of every earlier hop's origin
+        # was fetched and allowed that hop (policies here are per origin: allow all / deny all / 5xx).
+        def robots_url_of(u):
+            ui_ = parse(u)
+            return parse('%s://%s/robots.txt' % (ui_.scheme, ui_.hostname_with_port)).url
+
+        def robots_outcome(u, seen_origins):
+            ru = robots_url_of(u)
+            rstatus, _l, rbody = site.get(ru, [404, None, ''])
+            allow = not (rstatus == 200 and 'Disallow: /\n' in rbody)
+            if ru in seen_origins:
+                return 'C' + enc_bool(allow)
+            if 500 <= rstatus <= 599:
+                return 'E'
+            return 'F' + enc_bool(allow)
+        ui = parse(c['url'])
+        chain, resps, cur = [ui.url], [], ui.url
+        origins = [robots_url_of(cur)]
+        rob = robots_outcome(cur, [])
         for _ in range(10):
             status, location, _b = site.get(cur, [404, None, ''])
             if status in (301, 302, 303, 307, 308) and location:
                 cur = parse(urljoin(cur, location)).url
-                resps.append('D:' + enc_info(parse(cur)))
+                resps.append('D:%s@%s' % (enc_info(parse(cur)), robots_outcome(cur, origins)))
+                origins.append(robots_url_of(cur))
+                chain.append(cur)
             else:
                 resps.append('F')
                 break
-        ui = parse(c['url'])
-        robots_url = '%s://%s/robots.txt' % (ui.scheme, ui.hostname_with_port)
-        rstatus, _l, rbody = site.get(parse(robots_url).url, [404, None, ''])
-        rob = 'E' if 500 <= rstatus <= 599 else ('FF' if rstatus == 200 and 'Disallow: /\n' in rbody else 'FT')
         reqs.append('filter web %s %s %s %s %s %s %s %s' % (
             enc_filters(demux.url_filters), enc_bool(args.strong_redirects), enc_bool(args.robots),
             enc_rec(c['record']), enc_info(ui), rob, ';'.join(resps), log.tables()))
-        metas.append((c, args, outcome, seen, robots_url))
+        metas.append((c, args, outcome, seen, chain, robots_url_of))
     reps = ctx.model.ask(reqs)
-    for (c, args, outcome, seen, robots_url), rep in zip(metas, reps):
+    for (c, args, outcome, seen, chain, robots_url_of), rep in zip(metas, reps):
         want = []
         for ev in ([] if rep == '-' else rep.split(';')):
-            if ev.startswith('B:'):
-                want.append(parse(robots_url).url)
-            elif ev.startswith('R:'):
-                want.append(''.join(chr(int(x, 16)) for x in ev.split(':')[1].split('.')))
+            if ev[:2] in ('B:', 'R:'):
+                u = ''.join(chr(int(x, 16)) for x in ev.split(':')[1].split('.'))
+                want.append(robots_url_of(u) if ev.startswith('B:') else u)
         got = [parse(u).url for u in seen]
         case = dict(c, stream='web')
         if rep in ('miss', 'bad-arg', 'bad-op') or want != got or not outcome.startswith('ok'):
             ctx.disagree('web', case, {'events': rep, 'requests': want}, {'outcome': outcome, 'requests': got})
         ctx.case(('web', json.dumps(c, sort_keys=True)), nontrivial=len(got) > 0,
-                 tags=['web:requests=%d' % min(len(got), 4), 'web:' + outcome.split(' ')[0]])
-        # ---- the property on the request log of the server
-        first = parse(c['url']).url
-        seen_item = False
+                 tags=['web:requests=%d' % min(len(got), 4), 'web:' + outcome.split(' ')[0],
+                       'web:robots-fetches=%d' % min(3, len([u for u in got if u.endswith('/robots.txt')]))])
+        # ---- the property on the request log of the server: walk the log along the redirect chain.
+        # Hop i (i>0: a redirect target) must be in scope (span-hosts waived for i>0 under strong redirects);
+        # a robots.txt request is exempt only as the control file of the origin of the hop about to be
+        # visited, and only if that hop itself is justified.
+        i = 0
         for u in got:
-            if u == parse(robots_url).url and not seen_item:
-                if _justified(args, c['hostnames'], c['url'], c['record'], False):
+            if i >= len(chain):
+                ctx.fail('out-of-scope-request', 'web-session', case, 'request for %s after the end of the redirect chain' % u)
+                break
+            hop = chain[i]
+            broken = _justified(args, c['hostnames'], hop, c['record'], i > 0 and args.strong_redirects)
+            if u == hop:
+                if broken:
                     ctx.fail('out-of-scope-request', 'web-session', case,
-                             'robots.txt of %s fetched although the item URL is out of scope' % c['url'])
-                continue
-            waived = seen_item and args.strong_redirects      # a redirect hop
-            seen_item = True
-            broken = _justified(args, c['hostnames'], u, c['record'], waived)
-            if broken:
+                             'the server received a request for %s (hop %d of %s) which breaks %s' % (u, i, chain[0], broken))
+                i += 1
+            elif u == robots_url_of(hop) and args.robots:
+                if broken:
+                    ctx.fail('out-of-scope-request', 'web-session', case,
+                             'robots.txt %s fetched for %s (hop %d), a URL that is out of scope: %s' % (u, hop, i, broken))
+            else:
                 ctx.fail('out-of-scope-request', 'web-session', case,
-                         'the server received a request for %s (hop of %s) which breaks %s' % (u, first, broken))
+                         'the server received a request for %s, which is neither hop %d (%s) nor its robots.txt' % (u, i, hop))
+                break
     if cases:
         ctx.sample(dict(cases[0], stream='web'))
 
@@ -1087,7 +1112,7 @@ def session_argv(rng, web):
     if '--https-only' in argv and rng.random() < 0.8:
         argv.remove('--https-only')
     if web:
-        if rng.random() < 0.8:
+        if rng.random() < 0.55:
             argv.append('--no-robots')
         if rng.random() < 0.3:
             argv.append('--no-strong-redirects')
@@ -1114,6 +1139,14 @@ def gen_web_case(rng):
         site['http://a.example/robots.txt'] = [200, None, 'User-agent: *\nDisallow: /\n' if rng.random() < 0.4 else 'User-agent: *\nDisallow: /none\n']
     elif r < 0.6:
         site['http://a.example/robots.txt'] = [500, None, 'oops']
+    for h in WEB_HOSTS[1:]:
+        r = rng.random()
+        if r < 0.25:
+            site['http://%s/robots.txt' % h] = [200, None, 'User-agent: *\nDisallow: /\n']
+        elif r < 0.5:
+            site['http://%s/robots.txt' % h] = [200, None, 'User-agent: *\nDisallow: /none\n']
+        elif r < 0.6:
+            site['http://%s/robots.txt' % h] = [500, None, 'oops']
     rec = gen_record(rng, args, url)
     if rng.random() < 0.8:
         rec.update(level=0, inline_level=None, try_count=0, parent_url=None)
@@ -1142,11 +1175,17 @@ def fixed_session_cases():
     base = {'parent_url': None, 'root_url': None, 'level': 0, 'inline_level': None, 'try_count': 0}
     web = []
     site = {'http://a.example/x': [302, 'http://b.example/y', ''], 'http://b.example/y': [301, '/z.png', ''],
-            'http://b.example/z.png': [200, None, 'hello'], 'http://a.example/robots.txt': [200, None, 'User-agent: *\nDisallow: /q\n']}
+            'http://b.example/z.png': [200, None, 'hello'], 'http://a.example/robots.txt': [200, None, 'User-agent: *\nDisallow: /q\n'],
+            'http://b.example/robots.txt': [200, None, 'User-agent: *\nDisallow: /none\n']}
+    site_deny = dict(site)
+    site_deny['http://b.example/robots.txt'] = [200, None, 'User-agent: *\nDisallow: /\n']
+    site_err = dict(site)
+    site_err['http://b.example/robots.txt'] = [500, None, 'oops']
     for extra in ([], ['--no-strong-redirects'], ['-R', 'png'], ['--reject-regex', 'b\\.example/y'], ['--exclude-domains', 'b.example'],
                   ['--no-robots'], ['-t', '1'], ['-H']):
-        web.append({'argv': ['http://a.example/x'] + extra, 'hostnames': ['a.example'], 'url': 'http://a.example/x',
-                    'record': dict(base), 'site': site})
+        for st in (site, site_deny, site_err):
+            web.append({'argv': ['http://a.example/x'] + extra, 'hostnames': ['a.example'], 'url': 'http://a.example/x',
+                        'record': dict(base), 'site': st})
     ftp = []
     for extra, url in (([], 'ftp://a.example/pub/file.txt'), (['--accept-regex', 'file\\.txt$'], 'ftp://a.example/pub/file.txt'),
                        (['--reject-regex', '/$'], 'ftp://a.example/pub/sub'), (['--reject-regex', '/$'], 'ftp://a.example/pub/*.txt'),
